@@ -14,3 +14,5 @@ CONSTANTS
   Proofs = {TRUE, FALSE}
   Helper = TRUE
   GuardLate = FALSE
+  Panics = TRUE
+  SilentUnwind = FALSE
